@@ -28,7 +28,9 @@ def run(ctx):
     bdir = vlib.build_models()
     quick = ctx.tier == "quick"
     # small histories: judged by the exhaustive verified checker; long ones: only the direct torn-block oracle
-    plans = [("mem", 300 if quick else 6000, 4, 6), ("mem", 100 if quick else 2000, 3, 8), ("mem", 60 if quick else 1500, 6, 40),
+    plans = [("mem", 300 if quick else 6000, 4, 6),
+             # blocks made of two halves, so that concurrently written blocks share prefixes and suffixes
+             ("mem-halves", 600 if quick else 12000, 4, 6), ("mem", 100 if quick else 2000, 3, 8), ("mem", 60 if quick else 1500, 6, 40),
              ("file-disjoint", 100 if quick else 2000, 4, 6), ("file-disjoint", 30 if quick else 600, 6, 40),
              ("file-handoff", 60 if quick else 1000, 4, 6),
              # one writer, several readers on shared addresses; reads overlapping a write of their address are left out by the recorder
